@@ -160,3 +160,10 @@ pub open spec fn repr(d: AuthorizationItem, c: ComputedAuthorizationItem) -> boo
     &&& forall|k: String| c.identities@.contains_key(k) ==> #[trigger] c.identities@[k] == l.identities[last_ident(l.identities, k)]
     &&& forall|pn: String, idn: String| (c.privilegeAssignments@.contains_key(pn) && #[trigger] c.privilegeAssignments@[pn]@.contains(idn)) <==> granted_doc(l, pn, idn)
 }
+
+proof fn lits_modes()
+    ensures "disabled"@ != "audit"@, "disabled"@ != "enforce"@, "audit"@ != "enforce"@, "allow"@.len() == 5,
+{
+    reveal_strlit("disabled"); reveal_strlit("audit"); reveal_strlit("enforce"); reveal_strlit("allow");
+    assert("disabled"@.len() == 8); assert("audit"@.len() == 5); assert("enforce"@.len() == 7);
+}
